@@ -3,7 +3,7 @@
    (regex scan + offset loop; backwards block reads with a carry-over buffer; the next() loop);
    Spec.C19_Spec is what the property text names (splitlines, the lines of a file). *)
 From Boltons Require Import Lib.Prelude Lib.C19_Utf8 Spec.C19_Spec Model.C19_Model Gen.C19_Gen.
-From Boltons Require Import Proofs.C19_Split Proofs.C19_IterSplit Proofs.C19_Reverse.
+From Boltons Require Import Proofs.C19_Split Proofs.C19_IterSplit Proofs.C19_Reverse Proofs.C19_Text Proofs.C19_Jsonl.
 Open Scope N_scope.
 
 (* ---- iter_splitlines ---------------------------------------------------------------- *)
@@ -58,3 +58,70 @@ Example C19_reverse_ex :
   no_lone_cr [10; 97; 13; 10; 10; 195; 169; 10] = true /\
   reverse_iter_lines Binary [10; 97; 13; 10; 10; 195; 169; 10] 3 8 = Ok [[]; [195; 169]; []; [97]; []].
 Proof. exact (conj eq_refl eq_refl). Qed.
+
+(* ---- text-mode files, multi-byte characters ------------------------------------------- *)
+(* CPython's strict UTF-8 decoder inverts the encoder on every str without lone surrogates *)
+Theorem C19_utf8_roundtrip : forall t, forallb is_scalar t = true -> utf8_decode (utf8_encode t) = Some t.
+Proof. exact decode_encode. Qed.
+Print Assumptions C19_utf8_roundtrip.
+
+(* splitting the bytes and decoding each line = decoding and splitting the text: no \n or \r
+   byte occurs inside a multi-byte sequence, whatever the block size cuts through *)
+Theorem C19_reverse_text : forall t bs, (1 <= bs)%nat -> forallb is_scalar t = true -> no_lone_cr t = true ->
+  reverse_iter_lines TextUtf8 (utf8_encode t) bs (length (utf8_encode t)) = Ok (reverse_lines_spec t).
+Proof. exact reverse_text_spec. Qed.
+Print Assumptions C19_reverse_text.
+
+Example C19_reverse_text_ex :
+  let t := [233; 10; 8364; 120; 13; 10; 119070; 8232; 121] in
+  forallb is_scalar t = true /\ no_lone_cr t = true /\
+  utf8_encode t = [195; 169; 10; 226; 130; 172; 120; 13; 10; 240; 157; 132; 158; 226; 128; 168; 121] /\
+  reverse_iter_lines TextUtf8 (utf8_encode t) 2 17 = Ok [[119070; 8232; 121]; [8364; 120]; [233]].
+Proof. exact (conj eq_refl (conj eq_refl (conj eq_refl eq_refl))). Qed.
+
+(* ---- JSONLIterator ------------------------------------------------------------------------ *)
+(* json.loads is an arbitrary function [loads] (None = it raises); the only law used is that a
+   trailing line terminator does not change its result.  Blank lines are skipped, corrupt ones
+   are skipped with ignore_errors and end the iteration with the error otherwise. *)
+Theorem C19_jsonl_forward : forall (obj : Type) (loads : text -> option obj),
+  (forall s, loads_bytes loads (s ++ [LF]) = loads_bytes loads s) ->
+  (forall s, loads_bytes loads (s ++ [CR; LF]) = loads_bytes loads s) ->
+  forall c ie, no_lone_cr c = true ->
+  jsonl_iter loads Binary ie false c = Ok (jsonl_forward_spec (loads_bytes loads) is_ws_bytes ie c).
+Proof. exact @jsonl_binary_forward. Qed.
+Print Assumptions C19_jsonl_forward.
+
+Theorem C19_jsonl_reverse : forall (obj : Type) (loads : text -> option obj) c ie, no_lone_cr c = true ->
+  jsonl_iter loads Binary ie true c = Ok (jsonl_reverse_spec (loads_bytes loads) is_ws_bytes ie c).
+Proof. exact @jsonl_binary_reverse. Qed.
+Print Assumptions C19_jsonl_reverse.
+
+(* same objects forward and (reversed) in reverse mode, whatever the file size relative to the
+   block size, with ignore_errors or when no line is corrupt *)
+Theorem C19_jsonl : forall (obj : Type) (loads : text -> option obj),
+  (forall s, loads_bytes loads (s ++ [LF]) = loads_bytes loads s) ->
+  (forall s, loads_bytes loads (s ++ [CR; LF]) = loads_bytes loads s) ->
+  forall c ie, no_lone_cr c = true ->
+  ie = true \/ forallb (line_ok (loads_bytes loads) is_ws_bytes) (file_lines c) = true ->
+  exists os, jsonl_iter loads Binary ie false c = Ok (os, false)
+          /\ jsonl_iter loads Binary ie true c = Ok (rev os, false).
+Proof. exact @jsonl_binary_mirror. Qed.
+Print Assumptions C19_jsonl.
+
+(* text-mode (UTF-8, universal newlines) file holding the text t *)
+Theorem C19_jsonl_text : forall (obj : Type) (loads : text -> option obj),
+  (forall s, loads (s ++ [LF]) = loads s) ->
+  forall t ie, forallb is_scalar t = true -> no_lone_cr t = true ->
+  jsonl_iter loads TextUtf8 ie false (utf8_encode t) = Ok (jsonl_forward_spec loads is_ws_str ie t) /\
+  jsonl_iter loads TextUtf8 ie true (utf8_encode t) = Ok (jsonl_reverse_spec loads is_ws_str ie t).
+Proof. exact (fun obj loads L t ie S H => conj (jsonl_text_forward loads L t ie S H) (jsonl_text_reverse loads t ie S H)). Qed.
+Print Assumptions C19_jsonl_text.
+
+Theorem C19_jsonl_text_mirror : forall (obj : Type) (loads : text -> option obj),
+  (forall s, loads (s ++ [LF]) = loads s) ->
+  forall t ie, forallb is_scalar t = true -> no_lone_cr t = true ->
+  ie = true \/ forallb (line_ok loads is_ws_str) (file_lines t) = true ->
+  exists os, jsonl_iter loads TextUtf8 ie false (utf8_encode t) = Ok (os, false)
+          /\ jsonl_iter loads TextUtf8 ie true (utf8_encode t) = Ok (rev os, false).
+Proof. exact @jsonl_text_mirror. Qed.
+Print Assumptions C19_jsonl_text_mirror.
